@@ -68,7 +68,8 @@ def _worker(job):
             lc = reg.loop_contracts[lname]
             cls = lc["cls"]
             loops[(lc["target"], lc["ordinal"])] = (lc["header"], I.getattr_(cls, "havoc"), I.getattr_(cls, "inv"))
-        ex = driver.Explorer(I, prove_timeout_ms=int((h["timeout"] or budget) * 1000))
+        pt = int((h["timeout"] or budget) * 1000)
+        ex = driver.Explorer(I, prove_timeout_ms=pt, decide_timeout_ms=max(3000, min(pt // 3, 120000)))
         res = ex.run_harness(hname, h["func"], harness_params(h["func"]), summaries, loops, case)
         out = {
             "harness": label, "base_harness": hname, "case": case_idx, "cases_fn": h["cases"], "case_desc": (case.get("example") if isinstance(case, dict) else None), "prop": prop, "target": h["target"], "proves": h["proves"], "note": h["note"],
@@ -292,11 +293,19 @@ def report(prop, spec, args, seed, results, extra, t0):
     with ThreadPoolExecutor(8) as tp:
         for v in tp.map(_replay, pending[:CAP]):
             violations.append(v)
+    bounded_rows = []
     for g in extra["ground"]:
         for o in g["obligations"]:
             full = "%s/%s/%s" % (prop, g["name"], o["name"])
-            n_ob += 1
-            backends[g["backend"]] = backends.get(g["backend"], 0) + 1
+            if g.get("bounded"):
+                # bounded stand-in: reported, never counted as an obligation of the proof
+                bounded_rows.append({"check": full, "status": "held-on-everything-explored" if o["status"] == "proved" else o["status"]})
+                if o["status"] == "proved":
+                    continue
+                n_ob += 1
+            else:
+                n_ob += 1
+                backends[g["backend"]] = backends.get(g["backend"], 0) + 1
             if o["status"] == "proved":
                 n_dis += 1
                 continue
@@ -358,7 +367,7 @@ def report(prop, spec, args, seed, results, extra, t0):
                            "loop_contracts_used": r["used_loop_contracts"], "covers": r["covers"]} for r in results],
             "obligation_table": ob_rows[:400],
             "samples": samples[:6] or [{"note": "no solver obligations in this run"}],
-            "bounded": spec.get("bounded", []),
+            "bounded": spec.get("bounded", []), "bounded_results": bounded_rows,
             "known_findings_reproduced": sorted(set(known_lines)),
             "undecided": undecided, "explanation": spec.get("explanation", ""),
             "evaluations": max(vcs, n_ob, 1), "distinct_nontrivial": max(n_ob, 2),
